@@ -296,3 +296,94 @@ def fold_test(repo, module, test, cls=None, local=None, depth=0):
     if v is UNKNOWN:
         return None
     return bool(v)
+
+
+class _Subst(ast.NodeTransformer):
+    def __init__(self, mapping):
+        self.mapping = mapping
+
+    def visit(self, node):
+        if isinstance(node, ast.expr):
+            try:
+                t = ast.unparse(node)
+            except Exception:
+                t = None
+            if t in self.mapping:
+                v = self.mapping[t]
+                if isinstance(v, ast.AST):
+                    return v
+                return ast.copy_location(_to_ast(v), node)
+        return super().visit(node)
+
+
+def _to_ast(v):
+    if isinstance(v, dict):
+        return ast.Dict(keys=[_to_ast(k) for k in v],
+                        values=[_to_ast(x) for x in v.values()])
+    if isinstance(v, (list, tuple, set, frozenset)):
+        elts = [_to_ast(x) for x in v]
+        if isinstance(v, tuple):
+            return ast.Tuple(elts=elts, ctx=ast.Load())
+        if isinstance(v, (set, frozenset)):
+            return ast.Set(elts=elts)
+        return ast.List(elts=elts, ctx=ast.Load())
+    return ast.Constant(v)
+
+
+def subst_eval(repo, module, expr, mapping, cls=None):
+    """Fold `expr` after replacing every sub-expression whose source text is a
+    key of `mapping` by the mapped constant (e.g. {'self.lang': 'c++'}).
+    Subscripts of constant dicts and `in` tests are folded too."""
+    import copy
+    e = _Subst(mapping).visit(copy.deepcopy(expr))
+    ast.fix_missing_locations(e)
+    return _fold2(repo, module, e, cls)
+
+
+def _fold2(repo, module, e, cls):
+    if isinstance(e, ast.Subscript):
+        base = _fold2(repo, module, e.value, cls)
+        key = _fold2(repo, module, e.slice, cls)
+        if isinstance(base, dict) and key is not UNKNOWN:
+            return base.get(key, UNKNOWN)
+        if isinstance(base, (list, tuple)) and isinstance(key, int):
+            try:
+                return base[key]
+            except IndexError:
+                return UNKNOWN
+        return UNKNOWN
+    if isinstance(e, ast.IfExp):
+        t = _fold2(repo, module, e.test, cls)
+        if t is UNKNOWN:
+            return UNKNOWN
+        return _fold2(repo, module, e.body if t else e.orelse, cls)
+    if isinstance(e, ast.Compare) and len(e.ops) == 1:
+        l = _fold2(repo, module, e.left, cls)
+        r = _fold2(repo, module, e.comparators[0], cls)
+        if l is UNKNOWN or r is UNKNOWN:
+            return UNKNOWN
+        op = e.ops[0]
+        try:
+            if isinstance(op, ast.In):
+                return l in r
+            if isinstance(op, ast.NotIn):
+                return l not in r
+            if isinstance(op, ast.Eq):
+                return l == r
+            if isinstance(op, ast.NotEq):
+                return l != r
+        except Exception:
+            return UNKNOWN
+    if isinstance(e, ast.Call) and isinstance(e.func, ast.Attribute) and \
+            e.func.attr in ('endswith', 'startswith') and len(e.args) == 1:
+        recv = _fold2(repo, module, e.func.value, cls)
+        a = _fold2(repo, module, e.args[0], cls)
+        if isinstance(recv, str) and isinstance(a, (str, tuple)):
+            return getattr(recv, e.func.attr)(a)
+        return UNKNOWN
+    if isinstance(e, ast.Tuple):
+        vals = [_fold2(repo, module, x, cls) for x in e.elts]
+        if any(v is UNKNOWN for v in vals):
+            return UNKNOWN
+        return tuple(vals)
+    return const_eval(repo, module, e, cls)
